@@ -120,8 +120,12 @@ def _close(ctx, op, got, want, tol, key, scale=1.0):
         ctx.disagree(op, repr(want), repr(got))
 
 
+_TIE_INPUTS = {}   # op line -> the call (function, batch, dims, dm_norm argument, within_dm) it came from; used by search()
+
+
 def tie_boundaries(ctx):
     import numqi
+    _TIE_INPUTS.clear()
     from numqi.entangle import ppt as PPT
     rng = np.random.default_rng(ctx.np_seed)
     reps = 3 if ctx.quick() else 12
@@ -144,6 +148,8 @@ def tie_boundaries(ctx):
                 for dm_norm, used in variants:
                     res = guarded(lambda: numqi.entangle.get_density_matrix_boundary(dms, dm_norm=dm_norm))
                     ops = [f'C06 dmb {fbits(N)} {fbits(eig[i, 0])} {fbits(eig[i, -1])} {fbits(used[i])}' for i in range(cnt)]
+                    for o in ops:
+                        _TIE_INPUTS[o] = dict(fn='dm', dms=dms, dim=(dA, dB), dm_norm=dm_norm, within=None)
                     mo = common.run_model(ops)
                     if isinstance(res, str):
                         ctx.disagree(ops[0], mo[0], res); continue
@@ -173,6 +179,8 @@ def tie_boundaries(ctx):
                     ops2 = [f'C06 dmb {fbits(N)} {fbits(eigpt[i, 0])} {fbits(eigpt[i, -1])} {fbits(usedn[i])}' for i in range(cnt)]
                     m1 = common.run_model(ops1); m2 = common.run_model(ops2)
                     ops3 = [f'C06 pptb {int(within)} {m1[i]} {m2[i]}' for i in range(cnt)]
+                    for o in ops3:
+                        _TIE_INPUTS[o] = dict(fn='ppt', dms=dms, dim=(dA, dB), dm_norm=normarg, within=within)
                     m3 = common.run_model(ops3)
                     bl = np.asarray(res[0]).reshape(-1); bu = np.asarray(res[1]).reshape(-1)
                     for i in range(cnt):
@@ -311,6 +319,101 @@ def correspondence(ctx):
 # ---------------------------------------------------------------------------
 def _mat_replay(m):
     return dict(re=np.asarray(m).real.tolist(), im=np.asarray(m).imag.tolist())
+
+
+def _item_norm(dm_norm, idx, shp):
+    """the dm_norm that belongs to batch item `idx` (None / scalar / array of the batch shape)"""
+    if dm_norm is None:
+        return None
+    a = np.asarray(dm_norm)
+    return float(a) if a.size == 1 else float(a.reshape(-1)[idx])
+
+
+def _threshold_problems(dm, dA, dB, given, bl, bu, mode, eps=1e-6):
+    """two-sided threshold test of one (beta_l, beta_u) pair on the ray of `dm`; mode: 'dm' (PSD), 'ppt' (PSD and PPT), 'pt' (PT only).
+    `given` = caller-supplied dm_norm (beta is measured in those units) or None."""
+    import numqi
+    rho = lambda b: numqi.entangle.hf_interpolate_dm(dm, beta=b, dm_norm=given)
+    mineig = lambda m: np.linalg.eigvalsh((m + m.conj().T) / 2)[0]
+    ptmin = lambda m: mineig(pt_independent(m, dA, dB))
+    val = {'dm': mineig, 'pt': ptmin, 'ppt': lambda m: min(mineig(m), ptmin(m))}[mode]
+    what = {'dm': 'PSD', 'pt': 'PT-positive', 'ppt': 'PSD and PPT'}[mode]
+    bad = []
+    if not (np.isfinite(bl) and np.isfinite(bu) and bl < 0 < bu):
+        return [f'signs/finite: ({bl!r},{bu!r})']
+    for b, name in ((bu, 'upper'), (bl, 'lower')):
+        vin, vout = val(rho(b * (1 - eps))), val(rho(b * (1 + eps)))
+        if vin < -1e-12:
+            bad.append(f'{name} boundary {b!r}: just inside (beta*(1-1e-6)) is not {what}: min eigenvalue {vin:.3g}')
+        if vout > -1e-10:
+            bad.append(f'{name} boundary {b!r}: just outside (beta*(1+1e-6)) is still {what}: min eigenvalue {vout:.3g}')
+    return bad
+
+
+def _batched_oracle(ctx, fn, dms, dim, dm_norm, within, origin):
+    """the property on one *batched* call: batched == item by item, every item is the exact two-sided threshold of its criterion,
+    and beta_PPT <= beta_DM (+1e-12).  fn: 'dm' (get_density_matrix_boundary) or 'ppt' (get_ppt_boundary)."""
+    import numqi
+    dA, dB = dim
+    N = dA * dB
+    dms = np.asarray(dms)
+    shp = dms.shape[:-2]
+    flat = dms.reshape(-1, N, N)
+    replay = dict(op='get_density_matrix_boundary' if fn == 'dm' else 'get_ppt_boundary', origin=origin, dim=[dA, dB], batch_shape=list(shp),
+                  within_dm=within, dm_norm=(None if dm_norm is None else np.asarray(dm_norm).tolist()),
+                  dm_batch_re=dms.real.tolist(), dm_batch_im=dms.imag.tolist())
+    call = (lambda x, n: numqi.entangle.get_density_matrix_boundary(x, dm_norm=n)) if fn == 'dm' else \
+           (lambda x, n: numqi.entangle.get_ppt_boundary(x, (dA, dB), dm_norm=n, within_dm=within))
+    try:
+        res = call(dms, dm_norm)
+        bl = np.asarray(res[0]); bu = np.asarray(res[1])
+    except Exception as e:
+        ctx.fail('batched-boundary', f'{replay["op"]} raised {type(e).__name__}: {e} on a batch of shape {shp}', replay); return False
+    bad = []
+    if bl.shape != shp or bu.shape != shp:
+        bad.append(f'result shapes {bl.shape},{bu.shape} for batch shape {shp}')
+    else:
+        bl = bl.reshape(-1); bu = bu.reshape(-1)
+        bdl, bdu = [np.asarray(x).reshape(-1) for x in numqi.entangle.get_density_matrix_boundary(dms, dm_norm=dm_norm)] if fn == 'ppt' else (None, None)
+        for i in range(flat.shape[0]):
+            given = _item_norm(dm_norm, i, shp)
+            try:
+                sl, su = call(flat[i], given)
+            except Exception as e:
+                bad.append(f'item {i}: single call raised {type(e).__name__}'); continue
+            if abs(sl - bl[i]) > 1e-12 * max(1, abs(sl)) or abs(su - bu[i]) > 1e-12 * max(1, abs(su)):
+                bad.append(f'item {i}: batched ({bl[i]!r},{bu[i]!r}) != item-by-item ({float(sl)!r},{float(su)!r})')
+            mode = 'dm' if fn == 'dm' else ('ppt' if within else 'pt')
+            bad += [f'item {i}: ' + x for x in _threshold_problems(flat[i], dA, dB, given, float(bl[i]), float(bu[i]), mode)]
+            if fn == 'ppt' and within and not (bu[i] <= bdu[i] + 1e-12 and bl[i] >= bdl[i] - 1e-12):
+                bad.append(f'item {i}: beta_PPT ({bl[i]!r},{bu[i]!r}) not inside beta_DM ({bdl[i]!r},{bdu[i]!r})')
+    if bad:
+        ctx.fail('batched-boundary', f'{replay["op"]}(batch {shp}, dims ({dA},{dB}), within_dm={within}, dm_norm {"given" if dm_norm is not None else "None"}): '
+                 + '; '.join(bad[:3]) + (f' (+{len(bad) - 3} more)' if len(bad) > 3 else ''), replay)
+        return False
+    return True
+
+
+def probe_batched(ctx):
+    """threshold semantics, batched == per item, beta_PPT <= beta_DM on batched inputs of both closed-form boundary functions"""
+    import numqi
+    rng = np.random.default_rng(ctx.np_seed + 14)
+    shapes = [(2,), (4,), (2, 3)] if ctx.quick() else [(2,), (3,), (4,), (5,), (2, 2), (2, 3), (3, 2)]
+    for dA, dB in DIMS:
+        N = dA * dB
+        for si, shp in enumerate(shapes):
+            cnt = int(np.prod(shp))
+            makers = [lambda: rand_dm(rng, N), lambda: rand_direction_state(rng, N), lambda: rand_dm(rng, N, rank=1)]
+            dms = np.stack([makers[(i + si) % 3]() for i in range(cnt)]).reshape(shp + (N, N))
+            norms = numqi.gellmann.dm_to_gellmann_norm(dms.reshape(-1, N, N)).reshape(shp)
+            # dm_norm: computed internally / per-item array in other units / one scalar for the whole batch
+            for dm_norm in (None, 0.5 * norms, 1.75):
+                ok = _batched_oracle(ctx, 'dm', dms, (dA, dB), dm_norm, None, 'probe_batched')
+                for within in (True, False):
+                    ok = _batched_oracle(ctx, 'ppt', dms, (dA, dB), dm_norm, within, 'probe_batched') and ok
+                if ok:
+                    ctx.probe_ok(('batched', dA, dB, shp, dm_norm is None))
+                ctx.count('batched-calls', 3)
 
 
 def probe_thresholds(ctx):
@@ -543,17 +646,37 @@ def probe_ordering(ctx):
 
 def probe(ctx):
     probe_thresholds(ctx)
+    probe_batched(ctx)
     probe_inner_models(ctx)
     probe_cha_alive(ctx)
     probe_ordering(ctx)
 
 
 def search(ctx, hints):
+    """a proof obligation or the correspondence broke and the probe found nothing.
+    First re-evaluate the property on exactly the calls behind the disagreeing `dmb` / `pptb` operations (the batch, dims, dm_norm
+    argument and within_dm flag recorded by the tie) through the batched oracle; then widen the probe."""
+    seen = set()
+    for d in hints:
+        info = _TIE_INPUTS.get(d.get('op', '').replace(' (shape)', ''))
+        if info is None:
+            continue
+        key = (id(info['dms']), info['fn'], info['within'], None if info['dm_norm'] is None else np.asarray(info['dm_norm']).tobytes())
+        if key in seen:
+            continue
+        seen.add(key)
+        _batched_oracle(ctx, info['fn'], info['dms'], info['dim'], info['dm_norm'], info['within'], 'search: disagreeing op ' + d['op'][:60])
+        if len(ctx.failures) >= 5:
+            return
+    if ctx.failures:
+        return
     tier = ctx.tier
     ctx.tier = 'thorough'
     try:
         ctx.np_seed += 101
-        probe_thresholds(ctx)
+        probe_batched(ctx)
+        if not ctx.failures:
+            probe_thresholds(ctx)
         if not ctx.failures:
             probe_inner_models(ctx)
     finally:
